@@ -1416,6 +1416,14 @@ def _getattr(L, o, name, *default):
         raise
 
 
+@model('builtins.setattr')
+def _setattr(L, o, name, value):
+    if not isinstance(name, str):
+        raise Unsupported('setattr with a symbolic name')
+    L.I.setattr(o, name, value)
+    return None
+
+
 @model('builtins.callable')
 def _callable(L, v):
     return isinstance(v, (Func, BoundMethod, ClassV, LibRef, Lam, LibMethod))
